@@ -4,6 +4,7 @@ import (
 	"crypto/sha256"
 	"fmt"
 	"math/rand"
+	"strings"
 
 	ethcrypto "github.com/ethereum/go-ethereum/crypto"
 	"github.com/holiman/uint256"
@@ -139,7 +140,7 @@ func honestTx(r *rand.Rand, ty int32, from rtypes.Address) *ctrlertypes.Trx {
 func Probe(seed int64, n int) *ProbeResult {
 	r := rand.New(rand.NewSource(seed))
 	res := &ProbeResult{ByMutation: map[string]int{}}
-	chains := []string{"localnet", "rigo-mainnet", "testnet-7", "a", "chain with spaces"}
+	chains := []string{"localnet", "rigo-mainnet", "testnet-7", "ab", "chain with spaces", "Mixed-Case-Net"}
 	for i := 0; i < n; i++ {
 		seedKey := sha256.Sum256([]byte(fmt.Sprintf("verif-probe-%d-%d", seed, i)))
 		prv, err := ethcrypto.ToECDSA(seedKey[:])
@@ -219,8 +220,15 @@ func Probe(seed int64, n int) *ProbeResult {
 			c.Payload = p
 			muts = append(muts, mut{name, c, chain})
 		}
-		muts = append(muts, mut{"chainid", cloneTx(tx), chain + "x"}, mut{"chainid-other", cloneTx(tx), "othernet"})
+		muts = append(muts, mut{"chainid", cloneTx(tx), chain + "x"}, mut{"chainid-other", cloneTx(tx), "othernet"},
+			// near-identical chain ids are different chains
+			mut{"chainid-upper", cloneTx(tx), strings.ToUpper(chain)}, mut{"chainid-title", cloneTx(tx), strings.ToUpper(chain[:1]) + chain[1:]},
+			mut{"chainid-space-after", cloneTx(tx), chain + " "}, mut{"chainid-space-before", cloneTx(tx), " " + chain},
+			mut{"chainid-newline", cloneTx(tx), chain + "\n"}, mut{"chainid-prefix", cloneTx(tx), chain[:len(chain)-1]})
 		for _, m := range muts {
+			if strings.HasPrefix(m.name, "chainid") && m.chain == chain {
+				continue // not an alteration for this chain id
+			}
 			res.Mutations++
 			res.ByMutation[m.name]++
 			pre2, xerr := ctrlertypes.PreImageToSignTrxRLP(m.tx, m.chain)
